@@ -22,7 +22,7 @@ RULE = ("A history = 1..3 initial landscapes (from generated critical pairs, or 
 ASSUMPTIONS = [
     "exact landscapes: equality with the model is decided on the union of all breakpoints in the pool + midpoints + outside points (both sides are "
     "piecewise linear there); tolerance 1e-9 * (largest total variation, ordinate or |abscissa| in the pool)",
-    "diagram-built exact landscapes are used only when the C03 hook reports that the repeated-bar shortcut did not fire (excluded cases are counted)",
+    "a diagram-built exact landscape for which the C03 hook reports that the repeated-bar shortcut fired is modelled by the functions its own critical pairs represent (not by the definition), so C03's open finding is not re-reported here",
     "re-sampling: only interpolation inside the source grid is asserted, and zero outside for sources that vanish at both ends; extrapolation of a "
     "source whose end samples are non-zero is unspecified",
     "grid landscapes carrying the documented 'empty' sentinel are not used as operands",
@@ -121,7 +121,9 @@ class ExactPool:
 @st.composite
 def exact_leaf(draw):
     if draw(st.integers(0, 2)) == 0:
-        fam = draw(LD.bar_family(1, 5))
+        # every other diagram leaf is likely to contain exactly repeated bars: the sweep then emits depths that SHARE their list objects,
+        # so an operation that edits pairs in place (or deep-copies aliased structure) shows up as a non-pointwise result
+        fam = draw(LD.bar_family(1, 5, dup_bias=True) if draw(st.booleans()) else LD.bar_family(1, 5))
         return {"kind": "dgm", "bars": fam["dgms"][0], "mode": fam["mode"], "lazy": draw(st.booleans())}
     return {"kind": "pl", "f": draw(LD.pl_function(1, 3))}
 
@@ -150,8 +152,11 @@ def make_leaf(ctx, pool, leaf):
         return True
     probe = LD.exact_from_bars(ctx, leaf["bars"])
     if LD.shortcut_fired(probe):
-        ctx.label("leaf_excluded_shortcut")
-        return False
+        # the repeated-bar shortcut fired (C03's open finding): the object may not be the landscape of its diagram, but it still represents
+        # definite piecewise-linear functions - and its depths SHARE list objects. It takes part as the function it represents.
+        ctx.label("leaf_with_shared_depth_lists")
+        pool.add(probe, ("pl", [[[float(q[0]), float(q[1])] for q in d] for d in probe.critical_pairs]), "diagram %s (repeated-bar shortcut fired)" % leaf["bars"])
+        return True
     if leaf.get("lazy"):
         # built with compute=False: the landscape is only computed when it is first used - here, as an operand
         ctx.label("lazy_leaf")
